@@ -49,21 +49,24 @@ Theorem src_while_exact (tpb tau s : Z) (Us : list Z) (T : R) (k : Z) :
     ex_while (k * tau) (Ax tau s pre) post = (Ax tau s pre', post').
 Proof. exact (while'_float_exact tpb tau s Us T k). Qed.
 
+(* the clock: Track.current_time as the source computes it (relative tick grid, constant resolution, from 0) *)
 Theorem src_run_exact (tpb tau s : Z) (Us : list Z) (T : R) (n : nat) :
-  admissible' tpb tau s Us T -> (tpb <= 2 ^ 20)%Z -> IZR (Z.of_nat n) <= T * IZR tpb ->
+  admissible' tpb tau s Us T -> (tpb <= 2 ^ 20)%Z -> (Z.of_nat n <= 2 ^ 32)%Z -> IZR (Z.of_nat n) <= T * IZR tpb ->
   exists pre post, Us = pre ++ post /\
-    fl_run src_track_due (fun m => Nat.iter m (src_track_step tpb) 0) n (RN (IZR s / IZR tpb), map (Dof (tau * tpb)) Us)
+    fl_run src_track_due (fun m => fst (Nat.iter m (src_track_step tpb) (0, src_tick_grid_init))) n
+           (RN (IZR s / IZR tpb), map (Dof (tau * tpb)) Us)
       = (Xf tpb tau s pre, map (Dof (tau * tpb)) post) /\
     ex_run tau n ((s * tau)%Z, Us) = (Ax tau s pre, post).
-Proof. exact (run'_float_exact tpb tau s Us T n). Qed.
+Proof. exact (run'_float_exact_tick tpb tau s Us T n). Qed.
 
 (* the number of events consumed after n ticks: float computation = exact arithmetic, every tpb <= 2^20 *)
 Corollary src_consumed_exact (tpb tau s : Z) (Us : list Z) (T : R) (n : nat) :
-  admissible' tpb tau s Us T -> (tpb <= 2 ^ 20)%Z -> IZR (Z.of_nat n) <= T * IZR tpb ->
-  length (snd (fl_run src_track_due (fun m => Nat.iter m (src_track_step tpb) 0) n (RN (IZR s / IZR tpb), map (Dof (tau * tpb)) Us)))
+  admissible' tpb tau s Us T -> (tpb <= 2 ^ 20)%Z -> (Z.of_nat n <= 2 ^ 32)%Z -> IZR (Z.of_nat n) <= T * IZR tpb ->
+  length (snd (fl_run src_track_due (fun m => fst (Nat.iter m (src_track_step tpb) (0, src_tick_grid_init))) n
+                      (RN (IZR s / IZR tpb), map (Dof (tau * tpb)) Us)))
   = length (snd (ex_run tau n ((s * tau)%Z, Us))).
 Proof.
-  intros A H1 H2. destruct (src_run_exact tpb tau s Us T n A H1 H2) as (pre & post & _ & B & C).
+  intros A H1 H2 H3. destruct (src_run_exact tpb tau s Us T n A H1 H2 H3) as (pre & post & _ & B & C).
   rewrite B, C. simpl. apply map_length.
 Qed.
 
